@@ -212,7 +212,9 @@ func c36Run(r *vkit.Run, beat *c36Beat, streams []uint32, ops []c36Op) (nodes []
 		if why := c36Cycle(nodes); why != "" {
 			w := c36Witness{Driver: "private-map", Streams: streams, Ops: append([]c36Op(nil), ops[:i+1]...), Tree: c36Tree(nodes)}
 			r.Violation("cycle:"+c36Shape(ops[:i+1]), why+" after "+fmt.Sprint(ops[:i+1]), w)
-			c36DemonstrateHang(r, streams, ops[:i+1])
+			atomic.AddInt32(&c36Viol, 1)
+			// at most once per process: the demonstration leaves a spinning goroutine behind if it hangs
+			c36DemoOnce.Do(func() { c36DemonstrateHang(r, streams, ops[:i+1]) })
 			return nodes, descCase, false
 		}
 	}
@@ -244,6 +246,13 @@ func c36Shape(ops []c36Op) string {
 	}
 	return s
 }
+
+var (
+	c36Viol     int32 // violations reported so far; the drivers stop early once a handful is in
+	c36DemoOnce sync.Once
+)
+
+func c36Enough() bool { return atomic.LoadInt32(&c36Viol) >= 6 }
 
 // c36DemonstrateHang: once a cycle exists, a further priority update that
 // walks the cyclic ancestors cannot terminate; show it (bounded) for the report.
@@ -434,6 +443,9 @@ func c36(r *vkit.Run) {
 					return
 				}
 				for _, op := range al {
+					if c36Enough() {
+						return
+					}
 					ops = append(ops, op)
 					if apply(depth, op) {
 						rec(depth + 1)
@@ -441,6 +453,9 @@ func c36(r *vkit.Run) {
 					t.Restore(saveP[depth], saveM[depth])
 					ops = ops[:len(ops)-1]
 				}
+			}
+			if c36Enough() {
+				return
 			}
 			ops = append(ops, al[i])
 			if apply(0, al[i]) {
@@ -466,6 +481,9 @@ func c36(r *vkit.Run) {
 	// ---- random long sequences on the private map ----
 	nr := r.N(50000, 2000000)
 	vkit.Parallel(nr, workers, func(i int) {
+		if c36Enough() {
+			return
+		}
 		g := r.Rng("prio-long", i)
 		ns := g.Range(3, 12)
 		var streams []uint32
@@ -516,6 +534,9 @@ func c36(r *vkit.Run) {
 	nc := r.N(250, 5000)
 	var observed, srvDeep int64
 	vkit.Parallel(nc, 32, func(i int) {
+		if c36Enough() {
+			return
+		}
 		g := r.Rng("prio-server", i)
 		ns := g.Range(2, 7)
 		var streams []uint32
@@ -570,6 +591,9 @@ func c36(r *vkit.Run) {
 	})
 	r.Count("server_tree_snapshots", observed)
 	r.Count("server_cases_depth_ge2", srvDeep)
+	if c36Enough() {
+		return // stopped early on violations; the coverage counters below are meaningless then
+	}
 	if observed == 0 {
 		r.Inconclusive("driver b never observed the server's tree")
 	}
@@ -662,6 +686,7 @@ func c36ServerCase(r *vkit.Run, streams []uint32, ops []c36Op, _ *c36Beat) (snap
 		if why := c36Cycle(s.Nodes); why != "" {
 			w := c36Witness{Driver: "server", Streams: streams, Ops: append([]c36Op(nil), ops[:i+1]...), Tree: c36Tree(s.Nodes)}
 			r.Violation("cycle:server,"+c36Shape(ops[:i+1]), why+" on the real server after "+fmt.Sprint(ops[:i+1]), w)
+			atomic.AddInt32(&c36Viol, 1)
 			return
 		}
 	}
